@@ -486,11 +486,30 @@ func ParseJSON(doc []byte) (wire.Node, error) {
 func WriteXML(n wire.Node) []byte {
 	load()
 	var sb strings.Builder
-	writeXML(&sb, n, 0)
+	writeXML(&sb, n, 0, false)
 	return []byte(sb.String())
 }
 
-func writeXML(sb *strings.Builder, n wire.Node, depth int) {
+// WriteXMLNamed writes enumeration values by their pinned registry name wherever the element's own tag
+// determines the enumeration (attribute values stay numeric).
+func WriteXMLNamed(n wire.Node) []byte {
+	load()
+	var sb strings.Builder
+	writeXML(&sb, n, 0, true)
+	return []byte(sb.String())
+}
+
+// enumName returns the pinned name of value v of the enumeration carried by elements with this tag.
+func enumName(tag int, v uint32) (string, bool) {
+	for name, val := range EnumScope(tag) {
+		if val == v {
+			return name, true
+		}
+	}
+	return "", false
+}
+
+func writeXML(sb *strings.Builder, n wire.Node, depth int, named bool) {
 	ind := strings.Repeat("  ", depth)
 	name := tagName(n.Tag)
 	open := name
@@ -501,7 +520,7 @@ func writeXML(sb *strings.Builder, n wire.Node, depth int) {
 	if n.Type == wire.Structure {
 		fmt.Fprintf(sb, "%s<%s>\n", ind, open)
 		for _, c := range n.Children {
-			writeXML(sb, c, depth+1)
+			writeXML(sb, c, depth+1, named)
 		}
 		fmt.Fprintf(sb, "%s</%s>\n", ind, name)
 		return
@@ -514,6 +533,9 @@ func writeXML(sb *strings.Builder, n wire.Node, depth int) {
 		v = strings.ToUpper(hex.EncodeToString(wire.ToTwos(n.Big, 0)))
 	case wire.Enumeration:
 		v = fmt.Sprintf("0x%08X", uint32(n.Int))
+		if nm, ok := enumName(n.Tag, uint32(n.Int)); ok && named {
+			v = nm
+		}
 	case wire.Boolean:
 		v = strconv.FormatBool(n.Int != 0)
 	case wire.TextString:
@@ -617,11 +639,18 @@ func names(r Raw, sep, attrName string, report func(kind, scope, name string)) {
 // WriteJSON is the harness's own JSON TTLV writer (numeric enumerations and masks).
 func WriteJSON(n wire.Node) []byte {
 	load()
-	b, _ := json.Marshal(jsonNode(n))
+	b, _ := json.Marshal(jsonNode(n, false))
 	return b
 }
 
-func jsonNode(n wire.Node) map[string]any {
+// WriteJSONNamed is WriteJSON with enumeration values by name (see WriteXMLNamed).
+func WriteJSONNamed(n wire.Node) []byte {
+	load()
+	b, _ := json.Marshal(jsonNode(n, true))
+	return b
+}
+
+func jsonNode(n wire.Node, named bool) map[string]any {
 	name := tagName(n.Tag)
 	if name == "" {
 		name = fmt.Sprintf("0x%06X", n.Tag)
@@ -630,7 +659,7 @@ func jsonNode(n wire.Node) map[string]any {
 	if n.Type == wire.Structure {
 		ch := make([]any, 0, len(n.Children))
 		for _, c := range n.Children {
-			ch = append(ch, jsonNode(c))
+			ch = append(ch, jsonNode(c, named))
 		}
 		m["value"] = ch
 		return m
@@ -649,6 +678,9 @@ func jsonNode(n wire.Node) map[string]any {
 		m["value"] = "0x" + hex.EncodeToString(wire.ToTwos(n.Big, 0))
 	case wire.Enumeration:
 		m["value"] = fmt.Sprintf("0x%08X", uint32(n.Int))
+		if nm, ok := enumName(n.Tag, uint32(n.Int)); ok && named {
+			m["value"] = nm
+		}
 	case wire.Boolean:
 		m["value"] = n.Int != 0
 	case wire.TextString:
